@@ -121,6 +121,8 @@ pub mod streaming;
 mod tlf;
 
 pub use tlf::TlfParseError;
+#[cfg(feature = "verif-hooks")]
+pub use tlf::verif as tlf_verif;
 
 pub use octet_string::OctetStr;
 
